@@ -286,6 +286,13 @@ def sites_of(f, exact, prefix):
                         s.auto = "radix constant %d <= 36" % fold(r)
                 except Unfoldable:
                     pass
+            if "ordered_args" in e and len(t["args"]) > max(e["ordered_args"]):
+                try:
+                    lo_, hi_ = (fold(ex.operand(t["args"][i_])) for i_ in e["ordered_args"])
+                    if lo_ <= hi_:
+                        s.auto = "constant bounds %d <= %d" % (lo_, hi_)
+                except Unfoldable:
+                    pass
             if "nonzero_arg" in e and len(t["args"]) > e["nonzero_arg"]:
                 r = ex.operand(t["args"][e["nonzero_arg"]])
                 try:
@@ -315,8 +322,8 @@ def inventory(prog, cg, entries, exact=None, prefix=None, ctx=False):
         seen, parent = cg.reachable(entries)
     sites = []
     for k in sorted(seen):
-        f = prog.fns[k]
-        if f.get("test"):
+        f = prog.fns.get(k)
+        if f is None or f.get("test"):
             continue
         sites.extend(sites_of(f, exact, prefix))
     ext = {}
